@@ -120,42 +120,52 @@ class Engine:
 
     # ------------------------------------------------------------------ branching
     def decide(self, cond):
-        """cond: z3 Bool.  Returns a Python bool; forks when both sides are feasible."""
-        cond = z3.simplify(cond)
+        """cond: z3 Bool.  Returns a Python bool; forks when both sides are feasible.
+
+        Determinism: whether a call occupies a position of the decision trace depends only on
+        the *syntactic* form of cond as built by the Python code (never on z3.simplify, whose
+        output depends on AST ids, i.e. on allocation history).  The cache and the simplifier
+        only save solver calls."""
         if z3.is_true(cond):
             return True
         if z3.is_false(cond):
             return False
-        cid = cond.get_id()
-        got = self._decided.get(cid)
-        if got is not None:
-            return got
         self.steps += 1
         if self.steps > self.step_limit:
             raise StepLimit()
         i = len(self.trace)
         if i < len(self.prefix):
             v = self.prefix[i]
+            self.solver.add(cond if v else z3.Not(cond))
         else:
-            can_t = self.check(cond)
-            if can_t:
-                can_f = self.check(z3.Not(cond))
-            else:
-                can_f = True        # PC is satisfiable by construction, so ¬cond must be
-            if can_t and can_f:
-                self.work.append(self.trace + [False])
-                self.forks += 1
+            sc = z3.simplify(cond)
+            if z3.is_true(sc):
                 v = True
-            elif can_t:
-                v = True
-            else:
+            elif z3.is_false(sc):
                 v = False
-        # every non-trivial decision is recorded (also the implied ones) so that the
-        # positions of a replayed prefix line up with the original run
+            else:
+                cid = sc.get_id()
+                got = self._decided.get(cid)
+                if got is not None:
+                    v = got[0]
+                else:
+                    can_t = self.check(sc)
+                    if can_t:
+                        can_f = self.check(z3.Not(sc))
+                    else:
+                        can_f = True    # PC is satisfiable by construction
+                    if can_t and can_f:
+                        self.work.append(self.trace + [False])
+                        self.forks += 1
+                        v = True
+                    elif can_t:
+                        v = True
+                    else:
+                        v = False
+                    self.solver.add(sc if v else z3.Not(sc))
+                    self._decided[cid] = (v, sc)    # keep the AST alive (ids are reused after GC)
         self.trace.append(v)
         self.decisions_total += 1
-        self.solver.add(cond if v else z3.Not(cond))
-        self._decided[cid] = v
         if v:
             self._pin_from(cond)
         return v
@@ -170,9 +180,9 @@ class Engine:
             elif z3.is_eq(c):
                 a, b = c.children()
                 if z3.is_int_value(b) and z3.is_const(a) and a.decl().kind() == z3.Z3_OP_UNINTERPRETED:
-                    self.pins[a.get_id()] = b.as_long()
+                    self.pins[a.get_id()] = (b.as_long(), a)
                 elif z3.is_int_value(a) and z3.is_const(b) and b.decl().kind() == z3.Z3_OP_UNINTERPRETED:
-                    self.pins[b.get_id()] = a.as_long()
+                    self.pins[b.get_id()] = (a.as_long(), b)
 
     def pinned(self, c):
         """c: int or z3 term -> int if known concrete on this path else c."""
@@ -181,7 +191,7 @@ class Engine:
         if self.pins:
             v = self.pins.get(c.get_id())
             if v is not None:
-                return v
+                return v[0]
         return c
 
     # ------------------------------------------------------------------ exploration
@@ -250,7 +260,6 @@ def mk(e):
     """z3 Bool -> True/False when trivially so, else SymBool"""
     if isinstance(e, bool):
         return e
-    e = z3.simplify(e)
     if z3.is_true(e):
         return True
     if z3.is_false(e):
@@ -258,22 +267,63 @@ def mk(e):
     return SymBool(e)
 
 
+def zand(xs):
+    """conjunction with deterministic syntactic folding of constants"""
+    out = []
+    for x in xs:
+        if isinstance(x, bool):
+            x = z3.BoolVal(x)
+        if z3.is_false(x):
+            return z3.BoolVal(False)
+        if z3.is_true(x):
+            continue
+        out.append(x)
+    if not out:
+        return z3.BoolVal(True)
+    return out[0] if len(out) == 1 else z3.And(out)
+
+
+def zor(xs):
+    out = []
+    for x in xs:
+        if isinstance(x, bool):
+            x = z3.BoolVal(x)
+        if z3.is_true(x):
+            return z3.BoolVal(True)
+        if z3.is_false(x):
+            continue
+        out.append(x)
+    if not out:
+        return z3.BoolVal(False)
+    return out[0] if len(out) == 1 else z3.Or(out)
+
+
+def znot(x):
+    if isinstance(x, bool):
+        return z3.BoolVal(not x)
+    if z3.is_true(x):
+        return z3.BoolVal(False)
+    if z3.is_false(x):
+        return z3.BoolVal(True)
+    return z3.Not(x)
+
+
 def Not(x):
     if isinstance(x, SymBool):
-        return mk(z3.Not(x.e))
+        return mk(znot(x.e))
     return not x
 
 
 def And(*xs):
     if all(not isinstance(x, SymBool) for x in xs):
         return all(xs)
-    return mk(z3.And([tobool(x) for x in xs]))
+    return mk(zand([tobool(x) for x in xs]))
 
 
 def Or(*xs):
     if all(not isinstance(x, SymBool) for x in xs):
         return any(xs)
-    return mk(z3.Or([tobool(x) for x in xs]))
+    return mk(zor([tobool(x) for x in xs]))
 
 
 def _ie(x):
